@@ -12,7 +12,7 @@
 #include <string>
 
 using namespace sim;
-namespace sim { void setProcessorCount(int n); uint64_t condOpsAfterDestroy(); uint64_t threadsCreated(); }
+namespace sim { void setProcessorCount(int n); uint64_t condOpsAfterDestroy(); uint64_t threadsCreated(); uint64_t threadsNotJoined(); }
 
 typedef Future<void>::Private FP;
 
@@ -136,6 +136,8 @@ static void mainTask(void*) {
   C.phase = 1;
   requestTail();
   delete FP::_threadPool; FP::_threadPool = 0;
+  /* every worker the pool ever created has been joined by now: by the pool's clean-up of retired workers or by its destructor (a worker left behind keeps using the destroyed pool) */
+  if (threadsNotJoined()) fail("C10/worker_not_joined", "%llu of the %llu worker threads created by the pool were never joined although the pool has been destroyed", (unsigned long long)threadsNotJoined(), (unsigned long long)threadsCreated());
   C.phase = 2;
 }
 
@@ -165,21 +167,25 @@ static void generate(RunSpec& s, int tier) {
   uint64_t z = s.seed;
   auto r = [&](uint64_t n) { z += 0x9e3779b97f4a7c15ULL; uint64_t x = z; x = (x ^ (x >> 30)) * 0xbf58476d1ce4e5b9ULL; x = (x ^ (x >> 27)) * 0x94d049bb133111ebULL; x ^= x >> 31; return n ? x % n : x; };
   int nc = 1 + (int)r(4);
-  bool firstStartRace = r(6) == 0;      /* three or four clients whose first action is the process's first start(): they race through the lazy pool creation */
+  bool churn = r(5) == 0;               /* pool churn: all four clients alternate bursts of starts (bodies that sleep keep workers busy) with idle periods long enough for workers to be retired, so that workers are created, retired and their records recycled concurrently */
+  bool firstStartRace = !churn && r(6) == 0;      /* three or four clients whose first action is the process's first start(): they race through the lazy pool creation */
   if (firstStartRace) nc = 3 + (int)r(2);
+  if (churn) nc = 3 + (int)r(2);
   s.knobs["clients"] = nc; s.knobs["pool_mode"] = (r(4) && !firstStartRace) ? 1 : 0; s.knobs["pool_min"] = r(3); s.knobs["pool_max"] = 3 + r(3); static const int qs[] = {1, 2, 4, 8}; s.knobs["pool_queue"] = qs[r(4)]; s.knobs["nproc"] = 1 + r(8);
   static const int memk[] = {3, 5, 7, 9, 255}; static const int synck[] = {0, 1, 2, 4};
   s.knobs["mem_switch_log2"] = memk[r(5)]; s.knobs["sync_switch_log2"] = synck[r(4)];
   static const int sp[] = {0, 0, 3, 15}; s.knobs["spurious_pct"] = sp[r(4)];
   bool sleepy = r(3) == 0;
   for (int c = 0; c < nc; ++c) {
-    int n = 2 + (int)r(7);
+    int n = 2 + (int)r(7); if (churn) n = 7 + (int)r(5);
     for (int i = 0; i < n; ++i) {
       Op o; o.task = c; o.a[0] = (int64_t)r(3); o.a[1] = (int64_t)r(1000); o.a[2] = (int64_t)r(1000); o.a[3] = (int64_t)r(1000);
       uint64_t k = r(100);
       o.code = k < 40 ? O_START : k < 58 ? O_JOIN : k < 68 ? O_CONVERT : k < 76 ? O_ABORT : k < 80 ? O_QUERY : k < (sleepy ? 94u : 84u) ? O_SLEEP : k < 97 ? O_RECREATE : O_WORK;
       if (o.code == O_SLEEP && sleepy) o.a[1] = 3 + r(3);
       if (firstStartRace && i == 0) o.code = O_START;
+      if (churn) { /* synchronised bursts: every client runs start,start,(start),sleep 2.5 s,... so that the bursts of all clients coincide after each idle period */
+        int ph = i % 4; if (ph < 3) { o.code = (ph == 2 && r(3) == 0) ? O_JOIN : O_START; o.a[0] = ph; if (r(2)) o.a[1] = 2 + 4 * (int64_t)r(100); } else { o.code = O_SLEEP; o.a[1] = 4; } }
       s.plan.push_back(o);
     }
   }
